@@ -536,3 +536,129 @@ UNITS = [
                       "NOT PROMOTED: CELER_ASSERT(total_macro_xs > 0 || !is_stopped) (process data)", "an infinite sampled MFP (u == 0) or an overflowing mfp/xs gives an infinite step WITH an action: reset_step_limit's debug-only EXPECT is not provable there; stated, not decided"],
          note="calc_physics_step_limit: macro xs = sum over processes (any number <= 8 by loop contract), per-process values stored under their ids; stopped => zero step with the discrete action; otherwise 0 <= step <= continuous-loss step and <= fixed limit, action names the winning limit; no action only for a particle without processes (infinite step)"),
 ]
+
+
+# ---------------------------------------------------------------------------
+# UrbanMscSafetyStepLimit: the MSC true path limit never exceeds the physics step limit
+# ---------------------------------------------------------------------------
+from vkit.extract import init_list, ExtractionDrift  # noqa: E402
+from units.c14 import algo_min_clamp  # noqa: E402
+
+USL = "src/celeritas/em/msc/detail/UrbanMscSafetyStepLimit.hh"
+USL_MODEL = """
+#include <math.h>
+typedef struct { real_type range_init, range_factor, limit_min; } MscRange;      /* { range_init{}, range_factor{}, limit_min{} } */
+typedef struct { real_type max_step_, limit_min_, limit_; } UrbanMscSafetyStepLimit;
+typedef struct Engine Engine;
+#define MSCR_VALID(r) ((r)->range_init > 0 && (r)->range_factor > 0 && (r)->limit_min > 0)    /* MscRange::operator bool */
+bool g_safety_plus;                      /* physics->scalars().step_limit_algorithm == safety_plus */
+real_type g_range, g_mfp, g_helper_max_step, g_range_factor, g_lambda_limit, g_safety_factor, g_limit_min_fix;   /* dedx_range(), helper_.msc_mfp(), helper_.max_step(), scalars, params */
+MscRange g_msc_range;                    /* physics->msc_range(): the track's cached MSC range (a reference into the physics state) */
+double __CPROVER_uninterpreted_any2(double, double);
+double __CPROVER_uninterpreted_any4(double, double, double, double);
+/* calc_limit_min: ends with max(xm, limit_min_fix), so the result is >= limit_min_fix (its polynomial / FP part is not decided) */
+real_type CLM_call(UrbanMscSafetyStepLimit const* self) __CPROVER_assigns() __CPROVER_ensures(__CPROVER_return_value >= g_limit_min_fix);
+/* NormalDistribution sample: any value that is not NaN */
+real_type GAUSS_sample(real_type mean, real_type stddev, Engine* rng) __CPROVER_assigns() __CPROVER_ensures(!__CPROVER_isnand(__CPROVER_return_value));
+#define NN(x) (!__CPROVER_isnand(x))
+"""
+USL_RULES = Q_RULES + [
+    Rule(r"physics->scalars\(\)\.step_limit_algorithm\s*==\s*MscStepLimitAlgorithm::safety_plus", "g_safety_plus", "*", note="scalars option"),
+    Rule(r"physics->dedx_range\(\)", "g_range", "*", note="view read"),
+    Rule(r"auto const& msc_range = physics->msc_range\(\);", "MscRange const* msc_range = &g_msc_range;", "*", note="reference into the physics state"),
+    Rule(r"!msc_range\b", "!MSCR_VALID(msc_range)", "*", note="MscRange::operator bool"),
+    Rule(r"CELER_ASSERT\(msc_range\);", "/* NOT PROMOTED: CELER_ASSERT(msc_range) -- positivity of the FP-scaled range factor */", "*", note="in-body assert not promoted (FP products)"),
+    Rule(r"MscRange new_range;", "MscRange new_range = {0, 0, 0};", "*", note="default member initializers"),
+    Rule(r"physics->scalars\(\)\.(range_factor|lambda_limit|safety_factor)", r"g_\1", "*", note="scalars field"),
+    Rule(r"helper_\.msc_mfp\(\)", "g_mfp", "*", note="helper accessor"),
+    Rule(r"helper_\.max_step\(\)", "g_helper_max_step", "*", note="helper accessor"),
+    Rule(r"shared_\.params\.limit_min_fix\(\)", "g_limit_min_fix", "*", note="params accessor"),
+    Rule(r"max<real_type>\(", "fmax(", "*", note="celeritas::max<floating> == std::fmax"),
+    Rule(r"(?<![\w_])min\(", "celer_min(", "*", note="celeritas::min"),
+    Rule(r"(?<![\w_])clamp\(", "celer_clamp(", "*", note="celeritas::clamp (extracted)"),
+    Rule(r"new_range\.range_factor \*= [^;]*;", "new_range.range_factor = __CPROVER_uninterpreted_any4(new_range.range_factor, c, g_mfp, g_lambda_limit);", "*", note="FP scaling of the range factor -> uninterpreted (value not decided)"),
+    Rule(r"this->calc_limit_min\(shared_\.material_data\[matid\], inc_energy\)", "CLM_call(self)", "*", note="member call -> stub (its final max is its contract)"),
+    Rule(r"physics->msc_range\(new_range\);", "g_msc_range = new_range;", "*", note="view setter"),
+    Rule(r"\bmsc_range\.", "msc_range->", "*", note="reference -> pointer"),
+    Rule(r"UrbanMscSafetyStepLimit::min_range\(\)", "g_rho_", "*", note="constexpr constant (any positive value)"),
+    Rule(r"UrbanMscSafetyStepLimit::max_step_over_range\(\)", "g_alpha_", "*", note="constexpr constant (any value)"),
+    Rule(r"real_type limit_step = [^;]*;", "real_type limit_step = __CPROVER_uninterpreted_any2(alpha, range);", "*", note="scaled step range (nonlinear FP) -> uninterpreted (value not decided)"),
+    Rule(r"NormalDistribution<real_type> sample_gauss\(\s*([^;]*?),\s*([^;,]*)\);", r"real_type gauss_mean_ = \1, gauss_sd_ = \2;", "*", note="distribution construction -> its two arguments"),
+    Rule(r"sample_gauss\(rng\)", "GAUSS_sample(gauss_mean_, gauss_sd_, rng)", "*", note="normal sample -> stub (any value)"),
+    Rule(r"real_type\(0\.1\)", "((real_type)0.1)", "*", note="functional cast"),
+    Rule(r"(?<![\w.>])(max_step_|limit_min_|limit_)\b", r"self->\1", "*", note="data members"),
+]
+USL_INV = "NN(self->max_step_) && NN(self->limit_) && NN(self->limit_min_) && self->limit_ >= self->limit_min_"
+
+
+def build_usl_call(ctx):
+    pc = ctx.func(USL, r"CELER_FUNCTION real_type UrbanMscSafetyStepLimit::operator\(\)\(Engine& rng\)", USL_RULES, name="UrbanMscSafetyStepLimit::operator()")
+    return (HDR + USL_MODEL + algo_min_clamp(ctx) + """
+real_type USL_call(UrbanMscSafetyStepLimit const* self, Engine* rng)
+/* class invariant established by the constructor (c05_msc_safety_limit_ctor) */
+__CPROVER_requires(self != 0 && """ + USL_INV + """)
+__CPROVER_assigns()
+/* the true path length limit never exceeds the physics step limit chosen before the step */
+__CPROVER_ensures(__CPROVER_return_value <= self->max_step_)
+/* and, unless the physics limit itself is shorter, is not below the minimum true path */
+__CPROVER_ensures(self->max_step_ > self->limit_ ==> __CPROVER_return_value >= self->limit_min_)
+{""" + pc.body + """}
+void h_usl(void)
+{
+    UrbanMscSafetyStepLimit s; Engine* e;
+    USL_call(&s, e);
+    VERIF_CANARY();
+}
+""")
+
+
+def build_usl_ctor(ctx):
+    pc = ctx.span(USL, r"^UrbanMscSafetyStepLimit::UrbanMscSafetyStepLimit\(UrbanMscRef const& shared,", r"\n\{\n.*?\n\}", [], name="UrbanMscSafetyStepLimit::UrbanMscSafetyStepLimit")
+    k = pc.body.index("\n{\n")
+    inits = dict(init_list(pc.body[:k]))
+    if inits.get("max_step_") != "phys_step" or set(inits) != {"shared_", "helper_", "max_step_"}:
+        raise ExtractionDrift("UrbanMscSafetyStepLimit constructor initialiser list changed: %r" % inits)
+    from vkit.extract import strip_comments
+    body = strip_comments(pc.body[k + 3 : -1])
+    rep = []
+    for r in USL_RULES:
+        body = r.apply(body, rep, "UrbanMscSafetyStepLimit::UrbanMscSafetyStepLimit")
+    ctx.report.extend(rep)
+    return (HDR + USL_MODEL + algo_min_clamp(ctx) + """
+real_type g_rho_, g_alpha_;
+void USL_ctor(UrbanMscSafetyStepLimit* self, bool on_boundary, real_type safety, real_type phys_step)
+__CPROVER_requires(__CPROVER_rw_ok(self, sizeof(*self)))
+/* own CELER_EXPECTs */
+__CPROVER_requires(safety >= 0 && safety < g_helper_max_step && phys_step > g_limit_min_fix && phys_step <= g_range)
+/* state / parameters: finite positive range, positive fixed minimum, a cached MSC range that is either unset or valid */
+__CPROVER_requires(g_range > 0 && !__CPROVER_isinfd(g_range) && g_limit_min_fix > 0 && NN(g_mfp) && NN(g_range_factor) && NN(g_safety_factor) && NN(g_lambda_limit) && NN(safety) && NN(g_rho_))
+__CPROVER_requires(NN(g_msc_range.range_init) && NN(g_msc_range.range_factor) && NN(g_msc_range.limit_min))
+__CPROVER_assigns(*self, g_msc_range)
+/* the physics step limit is only ever lowered (safety_plus), never raised */
+__CPROVER_ensures(self->max_step_ <= phys_step && (!g_safety_plus ==> self->max_step_ == phys_step))
+/* class invariant used by operator() */
+__CPROVER_ensures(""" + USL_INV.replace("NN(self->max_step_) && ", "") + """)
+{
+    self->max_step_ = phys_step;   /* member initialiser list `max_step_(phys_step)` (checked on the extracted text); limit_min_{}, limit_{} default to 0 */
+    self->limit_min_ = 0; self->limit_ = 0;
+""" + body + """
+}
+void h_uslc(void)
+{
+    UrbanMscSafetyStepLimit s; real_type safety, step; unsigned r1, r2; g_safety_plus = (r2 != 0);
+    USL_ctor(&s, r1 != 0, safety, step);
+    VERIF_CANARY();
+}
+""")
+
+
+UNITS += [
+    Unit("c05_msc_safety_limit_call", build_usl_call, "h_usl", enforce="USL_call", replace=["GAUSS_sample"], timeout=300, backend=["sat", "cvc5"],
+         must_have=[r"USL_call.postcondition"], checks=LEAF_CHECKS,
+         assumptions=["NormalDistribution sample: any value", "class invariant limit_ >= limit_min_ (established in c05_msc_safety_limit_ctor)"],
+         note="UrbanMscSafetyStepLimit::operator(): the sampled true path limit is <= the physics step limit for every state, and >= limit_min unless the physics limit is the shorter one"),
+    Unit("c05_msc_safety_limit_ctor", build_usl_ctor, "h_uslc", enforce="USL_ctor", replace=["CLM_call"], timeout=300, backend=["sat", "cvc5"],
+         must_have=[r"USL_ctor.postcondition", r"celer_expect"], checks=LEAF_CHECKS,
+         assumptions=["calc_limit_min >= limit_min_fix (its final max)", "range-factor scaling and the safety_plus scaled step are uninterpreted (values not decided)", "NOT PROMOTED: CELER_ASSERT(msc_range) after caching"],
+         note="UrbanMscSafetyStepLimit constructor: max_step == the physics step (only lowered, never raised, under safety_plus); limit >= limit_min"),
+]
